@@ -18,6 +18,7 @@ This is where `ancestor_iff_positions`, `ancestor_iff_intervals` and the proved 
 -/
 import Verif.C14.Theorems
 import Verif.C14.Forest
+import Verif.C14.IterTotal
 namespace Verif.C14
 
 /-- What an accepted dump guarantees, for functions of any size. -/
@@ -119,7 +120,7 @@ theorem fDominees_sound {r : Report} (h : fDominees r = true) (a : Nat) (ha : a 
   simp only [fDominees, Bool.and_eq_true, List.all_eq_true, List.mem_range] at h
   obtain ⟨h1, h2⟩ := h
   have h1 := h1 a ha
-  simp only [Bool.and_eq_true, List.all_eq_true, decide_eq_true_eq, beq_iff_eq] at h1
+  simp only [decide_eq_true_eq, beq_iff_eq] at h1
   obtain ⟨hall, hnd⟩ := h1
   have hnd := nodupB_sound hnd
   refine ⟨fun b => ⟨fun hb => hall b hb, fun ⟨hb, hi⟩ => ?_⟩, fun b hb => ?_⟩
@@ -207,6 +208,17 @@ theorem interval_iff_all_paths (G : Graph) (r : Report) (h : domCheckF G r = tru
   have := (domCheckF_sound G r h).intervals_all a b ha hb
   simp only [Report.interval, Bool.and_eq_true, decide_eq_true_eq]
   exact this.symm
+
+/-- The validator never fails for lack of fuel: its dominator sets always exist and are
+exact (`domBits_total_correct`), so a rejection is always a rejection of the REPORT. -/
+theorem domCheckF_reject_is_about_report (G : Graph) (r : Report) (hs : cShape G r = true)
+    (h : domCheckF G r = false) :
+    ∃ D, domBits G r.roots = some D ∧
+      (fRows D r && fIdom D r && fDominees r && fForest D r && (!r.full || cRowsFull r)) = false := by
+  obtain ⟨D, hD⟩ := domBits_isSome G r.roots
+  refine ⟨D, hD, ?_⟩
+  simp only [domCheckF, hs, hD, Bool.true_and] at h
+  exact h
 
 /-! ### Non-vacuity: `exRep` (Theorems.lean) is accepted also WITHOUT any row; a wrong
 `Idom` (block 3 hung below block 1) and a listing that is not a traversal are rejected. -/
